@@ -268,7 +268,13 @@ func init() {
 				for k := 0; k < 1024; k++ {
 					fmt.Fprintf(&b, "var v%d\n", k)
 				}
-				fixed = append(fixed, b.String()+"print 1\n", b.String()+"print v3\n", "print "+strings.Repeat("1+(", 1030)+"1"+strings.Repeat(")", 1030)+"\n",
+				fixed = append(fixed,
+					"def a { def b {} var p = b var q = b x = 1 }\nprint 1\n",
+					"def a { def b {} def c {} x = b == c }\n",
+					"def a { def b { y = 1 } var p = b z = p and b print 2 }\n",
+					"var s = \"ab\" * 200\nprint s\ndef k { f = s + s; g = f == s }\nprint s + 1\n",
+					"var s = \"0123456789\" * 26\nvar t = s + \"x\"\nprint t == s\nprint t\n",
+					b.String()+"print 1\n", b.String()+"print v3\n", "print "+strings.Repeat("1+(", 1030)+"1"+strings.Repeat(")", 1030)+"\n",
 					strings.Repeat("def b { x = 1\n", 17)+strings.Repeat("}\n", 17))
 			}
 			for k, src := range fixed {
